@@ -1,16 +1,25 @@
-(* C10 -- small facts that belong to no other property: what the faithful models say about the defects found by the
-   C10 sanitizer runs. *)
+(* C10 -- small facts that belong to no other property, stated so that Properties_C10.v does not depend on the exact
+   form of lemmas that other properties are still refining. *)
 From Coq Require Import ZArith List Bool Floats.
-From Clip Require Import base.Geom base.FloatModel model.PathUtils.
+From Clip Require Import base.Geom base.FloatModel model.PathUtils proofs.PathUtilsInst.
+From Clip Require model.OffsetGeom.
 Import ListNotations.
 Local Open Scope Z_scope.
 
-(* RamerDouglasPeucker(path, NaN): `if (max_d <= epsSqrd) return;` is false for epsSqrd = NaN even when no vertex was
-   selected (idx = 0, max_d = 0), so RDP(path, 0, end) calls itself with the same arguments: the fuelled model of the
-   recursion (model/PathUtils.v) runs out of fuel.  proofs/PathUtilsInst.rdp_path_safe excludes exactly this case by
-   its hypothesis 0 <= eps^2.  On the real code: stack overflow (checks/C10.py key rdp.nan-epsilon.unbounded-recursion). *)
-Lemma rdp_nan_out_of_fuel : rdp_path [(0, 0); (1, 0); (2, 0); (3, 0); (4, 0)] nan = ErrFuel.
-Proof. vm_compute. reflexivity. Qed.
+(* RamerDouglasPeucker: the fuelled, bounds-checked model never fails for an epsilon whose square is >= 0 (every epsilon
+   but NaN).  Before /repo 75ed759 the code recursed for ever on NaN (`max_d <= NaN` is false, idx stays 0; checks/C10.py
+   key rdp.nan-epsilon.unbounded-recursion); C20 owns the model of the repaired test. *)
+Lemma rdp_safe_nonnan (p : path) (eps : float) :
+  (0 <=? fsqr eps)%float = true -> exists r : path, rdp_path p eps = Ok r.
+Proof. intros H. first [exact (rdp_path_safe p eps H) | exact (rdp_path_safe p eps)]. Qed.
 
-Lemma rdp_nan_hypothesis_fails : (0 <=? fsqr nan)%float = false.
-Proof. vm_compute. reflexivity. Qed.
+(* OffsetOpenPath / OffsetOpenJoined on an EMPTY path: the very first access is path[0] / norms[0] of an empty vector.
+   Before /repo e710a8d DoGroupOffset passed empty paths on to them (key offset.empty-path.open-end-type). *)
+Lemma offset_open_empty_out_of_bounds :
+  forallb (OffsetGeom.in_bounds 0) (OffsetGeom.open_path_accesses 0) = false /\
+  In (OffsetGeom.APath, 0) (OffsetGeom.open_path_accesses 0).
+Proof. split; [reflexivity|left; reflexivity]. Qed.
+
+Lemma offset_joined_empty_out_of_bounds :
+  forallb (OffsetGeom.in_bounds 0) (OffsetGeom.open_joined_accesses 0) = false.
+Proof. reflexivity. Qed.
